@@ -16,6 +16,7 @@ ASSUME TLCSet(3, 0)
 
 B(x) == FromLimbs(x)
 P32 == <<0, 0, 0, 0, 1>>          \* 2^32
+P64 == <<0, 0, 0, 0, 0, 0, 0, 0, 1>>   \* 2^64
 
 Errors(r) ==
     LET c == r.case
@@ -29,6 +30,13 @@ Errors(r) ==
     IN IF "dc_result" \notin DOMAIN g THEN {}
        ELSE (IF g.dc_result \in {"panic", "hang", "budget"} THEN {<<"NotTotal", g.dc_result>>} ELSE {})
        \cup (IF tooBig /\ g.dc_result = "ok" THEN {<<"RangeNotRejected">>} ELSE {})
+       \* a set-up whose times fit must succeed: failing it (for instance because a SubDevice without DC was
+       \* written to and did not acknowledge) is not an option the property leaves
+       \cup (IF ~tooBig /\ g.dc_result \notin {"ok", "panic", "hang", "budget"}
+                /\ (\E i \in 1..n : c.devices[i].dc # "none")
+                /\ "ref_time_at_config" \in DOMAIN g /\ Len(g.ref_time_at_config) > 0
+                /\ BLt(BAdd(BAdd(B(g.ref_time_at_config), d), p), P64)
+             THEN {<<"SetupFailed", g.dc_result>>} ELSE {})
        \cup (IF g.dc_result = "ok" /\ ~tooBig
              THEN LET t == B(g.ref_time_at_config)
                       sum == BAdd(t, d)
